@@ -217,6 +217,72 @@ def reachable(fns):
     return seen
 
 
+MUTABLE_CALLS = {"dict", "list", "set", "defaultdict", "OrderedDict", "deque", "Counter", "bytearray"}
+
+
+def _mutable_value(v):
+    if isinstance(v, (ast.Dict, ast.List, ast.Set, ast.ListComp, ast.DictComp, ast.SetComp)):
+        return True
+    if isinstance(v, ast.Call):
+        f = v.func
+        name = f.id if isinstance(f, ast.Name) else f.attr if isinstance(f, ast.Attribute) else ""
+        return name in MUTABLE_CALLS
+    return False
+
+
+def process_state():
+    """Everything in the generator's modules that can carry information from one call of an entry point to the next inside one
+    interpreter: module-level and class-level bindings to mutable containers, `global` declarations, memoising decorators,
+    mutable default arguments, attributes stored on classes/functions.  (module, where, what) triples; whole modules are scanned,
+    reachable or not."""
+    out = []
+    for m in MODULES:
+        path = os.path.join(REPO, "kojen", m)
+        if not os.path.exists(path):
+            continue
+        tree = ast.parse(open(path, encoding="utf-8").read())
+        mod = m[:-3]
+        classes = {n.name for n in tree.body if isinstance(n, ast.ClassDef)}
+        for n in tree.body:
+            if isinstance(n, (ast.Assign, ast.AnnAssign)) and n.value is not None and _mutable_value(n.value):
+                tg = n.targets if isinstance(n, ast.Assign) else [n.target]
+                for t in tg:
+                    out.append((mod, "<module>", "mutable:" + ast.unparse(t)))
+            if isinstance(n, ast.ClassDef):
+                for b in n.body:
+                    if isinstance(b, (ast.Assign, ast.AnnAssign)) and b.value is not None and _mutable_value(b.value):
+                        tg = b.targets if isinstance(b, ast.Assign) else [b.target]
+                        for t in tg:
+                            out.append((mod, n.name, "mutable:" + ast.unparse(t)))
+        for n in ast.walk(tree):
+            if isinstance(n, ast.Global):
+                for g in n.names:
+                    out.append((mod, "<function>", "global:" + g))
+            if isinstance(n, ast.Nonlocal):
+                continue
+            if isinstance(n, (ast.FunctionDef, ast.AsyncFunctionDef, ast.ClassDef)):
+                for d in n.decorator_list:
+                    txt = ast.unparse(d)
+                    if txt not in ("staticmethod", "classmethod", "property", "abstractmethod", "abc.abstractmethod"):
+                        out.append((mod, n.name, "decorator:" + txt))
+            if isinstance(n, (ast.FunctionDef, ast.AsyncFunctionDef)):
+                for d in list(n.args.defaults) + [x for x in n.args.kw_defaults if x is not None]:
+                    if _mutable_value(d):
+                        out.append((mod, n.name, "mutable-default:" + ast.unparse(d)))
+            # ClassName.attr = ... / ClassName.attr[...] = ... / type(self).attr / self.__class__.attr: state stored on the class object
+            if isinstance(n, (ast.Assign, ast.AugAssign)):
+                tg = n.targets if isinstance(n, ast.Assign) else [n.target]
+                for t in tg:
+                    base = t
+                    while isinstance(base, ast.Subscript):
+                        base = base.value
+                    if isinstance(base, ast.Attribute):
+                        owner = ast.unparse(base.value)
+                        if owner in classes or owner.startswith("type(") or owner.endswith(".__class__"):
+                            out.append((mod, "<function>", "class-attribute:" + ast.unparse(base)))
+    return sorted(set(out))
+
+
 def run():
     fns = collect_functions()
     for info in fns.values():
@@ -239,6 +305,7 @@ def run():
         triples("scanned_fs_mutations", fs),
         triples("scanned_env_reads", env),
         triples("unreachable_fs_mutations", unreach_fs),
+        triples("scanned_process_state", process_state()),
         "Definition scanned_reachable_functions : nat := %d." % len(reach),
     ]) + "\n"
     return write_gen("Inventory.v", text, ["kojen/" + m for m in MODULES])
